@@ -1,9 +1,13 @@
 """C02 on the symbolic repository (see gitprops.py)."""
-from . import gitprops
+from . import gitprops, histcheck
 
 
 def check(rep):
     gitprops.run(rep, 'C02')
+    histcheck.check(rep, 'C02')
 
 
-replay = gitprops.replay
+def replay(data):
+    if 'history' in data:
+        return histcheck.replay('C02', data)
+    return gitprops.replay(data)
